@@ -1,5 +1,6 @@
 import KitProofs.Lemmas.Processor
 import KitProofs.Lemmas.ProcessorProgress
+import KitProofs.Lemmas.Queue
 /-!
 # C06 — queue.Processor: live items run exactly once, on time, in order; none stranded
 
@@ -184,26 +185,22 @@ theorem dequeued_or_replaced_never_runs {s : State κ ν} (hr : Reach (lts fixed
 theorem one_per_key {s : State κ ν} (hr : Reach (lts fixedCfg) s) :
     s.q.Pairwise (fun x y => x.key ≠ y.key) := invK hr
 
+/-- The sorted association list with `Insert`-with-replace / `Peek` / `Pop` / `Remove` refines the
+queue specification the processor model is written against: it holds the same live items, one per
+key, and what it peeks/pops is a head the specification allows. -/
+theorem sorted_list_refines_spec :
+    Refines ([] : List (Item κ ν)) [] ∧
+    (∀ sq q : List (Item κ ν), Refines sq q → ∀ r, Refines (SortedQ.insert sq r) (Queue.insert q r)) ∧
+    (∀ sq q : List (Item κ ν), Refines sq q → ∀ k, Refines (SortedQ.remove sq k) (remove q k)) ∧
+    (∀ sq q : List (Item κ ν), Refines sq q → IsHead q (SortedQ.peek sq)) ∧
+    (∀ sq q : List (Item κ ν), Refines sq q → ∀ r, (SortedQ.pop sq).1 = some r →
+      IsHead q (some r) ∧ Refines (SortedQ.pop sq).2 (pop q r)) :=
+  ⟨refines_nil, fun _ _ h r => refines_insert h r, fun _ _ h k => refines_remove h k,
+   fun _ _ h => refines_peek h,
+   fun sq _ h r hp => ⟨by have := refines_peek h; simp only [SortedQ.peek] at this; simp only [SortedQ.pop] at hp; rw [hp] at this; exact this,
+     refines_pop h hp⟩⟩
+
 /-! ## the loop before the fix: a stranded item -/
-
-/-- Run a list of labels. -/
-def runFrom (cfg : Cfg) (s : State κ ν) : List (Label κ ν) → Option (State κ ν)
-  | [] => some s
-  | a :: as => (step cfg s a).bind fun s' => runFrom cfg s' as
-
-theorem reach_of_run {cfg : Cfg} {s s' : State κ ν} (hr : Reach (lts cfg) s) :
-    ∀ {ls : List (Label κ ν)}, runFrom cfg s ls = some s' → Reach (lts cfg) s' := by
-  intro ls
-  induction ls generalizing s with
-  | nil => intro h; simp [runFrom] at h; exact h ▸ hr
-  | cons a as ih =>
-    intro h
-    simp only [runFrom] at h
-    cases hst : step cfg s a with
-    | none => simp [hst] at h
-    | some s1 =>
-      simp only [hst, Option.bind_some] at h
-      exact ih (Reach.step a hr hst) h
 
 /-- The 5-step schedule: Enqueue a; Dequeue a (reset buffered); the loop peeks, sees the queue
 empty and unlocks; Enqueue b finds the token taken and only sends a reset; the loop's deferred
